@@ -333,6 +333,32 @@ func c16(x *mon.Ctx) {
 		subs = append(subs, subject{"bad-qe-signature", w.Case(world.LBase, "c16", "")})
 	}
 
+	{ // quotes whose PCK chain is not quite a chain (they are refused, or tolerated, without anything being written): a NUL
+		// behind every certificate, NULs inside a PEM line, a leading NUL, CR LF line ends, blanks between the blocks
+		w := richHonest(r)
+		pems := [][]byte{w.PKI.Leaf.PEM, w.PKI.Inter.PEM, w.PKI.Root.PEM}
+		all := bytes.Join(pems, nil)
+		nulInLine := append([]byte{}, all...)
+		nulInLine[bytes.IndexByte(nulInLine, 0x20)] = 0 // the blank of the BEGIN line: 0x20 -> 0x00 is a single-bit change
+		nulMid := append([]byte{}, all...)
+		nulMid[len(nulMid)/2] = 0
+		for name, ch := range map[string][]byte{
+			"nul-behind-every-certificate": bytes.Join([][]byte{pems[0], {0}, pems[1], {0}, pems[2], {0}}, nil),
+			"nul-between-certificates":     bytes.Join([][]byte{pems[0], {0}, pems[1], pems[2]}, nil),
+			"nul-inside-begin-line":        nulInLine,
+			"nul-inside-base64":            nulMid,
+			"leading-nul":                  append([]byte{0}, all...),
+			"two-trailing-nuls":            append(append([]byte{}, all...), 0, 0),
+			"crlf-line-ends":               bytes.ReplaceAll(all, []byte("\n"), []byte("\r\n")),
+			"blank-lines-between":          bytes.Join(pems, []byte("\n\n")),
+			"nul-then-text-then-chain":     append([]byte{0, 'x', 0, 'y'}, all...),
+		} {
+			w2 := w.Clone()
+			w2.Q.Chain = ch
+			subs = append(subs, subject{"chain-" + name, w2.Case(world.LBase, "c16", "")})
+		}
+	}
+
 	// ---------------- (a) snapshots
 	for _, s := range subs {
 		q, err := ref.ParseQuote(s.c.Quote)
